@@ -309,7 +309,7 @@ def judge_msg(ctx, m, cid, data, remote, via, case):
 
 def frame_format_sweep(ctx, rng, part, parts):
     bus = simbus.SimBus(mode="inline")
-    net, st = simbus.make_network(bus, "net")
+    net, st = simbus.make_network(bus, "net", modifiable=bool(part % 2))      # both flavours of cyclic tasks over the shards
     ids = [i for i in range(0x800) if i % parts == part]
     ids += [rng.randint(0x800, 0x1FFFFFFF) for _ in range(200)] + [0x800, 0x1FFFFFFF, 0x801, 0xFFF, 0x10000]
     for cid in ids:
@@ -321,6 +321,18 @@ def frame_format_sweep(ctx, rng, part, parts):
             task = net.send_periodic(cid, data, 0.1, remote)
             ctx.count("frames_format_checked")
             judge_msg(ctx, task.msg, cid, data, remote, "send_periodic", {"sweep": "send_periodic", "id": cid})
+            if not remote:
+                # the frame a cyclic task transmits after its data was updated is still a frame of that id and format
+                data2 = bytes(rng.getrandbits(8) for _ in range(rng.randint(0, 8)))
+                task.update(data2)
+                live = [t.current() for t in st.tasks]
+                ctx.count("frames_format_checked")
+                want = [(cid, data2, cid > 0x7FF, False)]
+                got = [(c, bytes(d), bool(e), bool(r)) for c, d, e, r in live]
+                if got != want:
+                    ctx.violation(f"frame-format:send_periodic-after-update:{'ext' if cid > 0x7FF else 'std'}",
+                                  f"after update() the cyclic task(s) of {cid:#x} transmit (id, data, extended, remote) {got}, expected {want}",
+                                  {"sweep": "send_periodic-update", "id": cid, "modifiable": st.modifiable})
             task.stop()
     bus.close()
 
@@ -445,6 +457,69 @@ def reconnect_scenario(ctx, rng, tag):
         peer.shutdown()
 
 
+def damaged_node_scenarios(ctx, rng, hid):
+    """An application unsubscribed one of a node's CAN ids wholesale (Network.unsubscribe(id), which add_node(...,
+    upload_eds=True) also does for the SDO id) and then removes or replaces the node.  Whatever the library makes of
+    that - refuse, or carry it through - a node that is *gone from the network* must be deaf."""
+    import canopen
+    for kind in ("remote", "local"):
+        for how in ("del", "pop", "replace"):
+            for victim in ("sdo", "heartbeat", "emcy", "nmt"):
+                if kind == "local" and victim in ("heartbeat", "emcy"):
+                    continue
+                bus = simbus.SimBus(mode="inline")
+                net, st = simbus.make_network(bus, "net")
+                nid = rng.choice([1, 2, 5, 100])
+                node = canopen.RemoteNode(nid, od_factory()) if kind == "remote" else canopen.LocalNode(nid, od_factory())
+                net.add_node(node) if kind == "remote" else net.create_node(node)
+                cid = {"sdo": (0x580 if kind == "remote" else 0x600) + nid, "heartbeat": 0x700 + nid, "emcy": 0x80 + nid, "nmt": 0}[victim]
+                case = {"scenario": "damaged-node", "kind": kind, "how": how, "unsubscribed": hex(cid), "history": hid}
+                ctx.case(("damaged-node", kind, how, victim), nontrivial=True)
+                try:
+                    net.unsubscribe(cid)
+                except KeyError:
+                    bus.close()
+                    continue
+                raised = None
+                try:
+                    if how == "del":
+                        del net[nid]
+                    elif how == "pop":
+                        net.pop(nid)
+                    else:
+                        repl = canopen.RemoteNode(nid, od_factory()) if kind == "remote" else canopen.LocalNode(nid, od_factory())
+                        net.add_node(repl) if kind == "remote" else net.create_node(repl)
+                except Exception as exc:  # noqa: BLE001
+                    raised = exc
+                gone = net.nodes.get(nid) is not node
+
+                def probe():
+                    before = (node.nmt._state, node.nmt.timestamp if kind == "remote" else None, len(node.emcy.log) if kind == "remote" else 0)
+                    mark = len(bus.log)
+                    if kind == "remote":
+                        if victim != "heartbeat":
+                            net.notify(0x700 + nid, bytearray([5 if node.nmt._state != 5 else 4]), 77.0)
+                        if victim != "emcy":
+                            net.notify(0x80 + nid, bytearray(b"\x10\x81\x01\x00\x00\x00\x00\x00"), 78.0)
+                    else:
+                        if victim != "nmt":
+                            net.notify(0, bytearray([1 if node.nmt._state != 5 else 2, nid]), 79.0)
+                        if victim != "sdo":
+                            net.notify(0x600 + nid, bytearray(b"\x40\x17\x10\x00\x00\x00\x00\x00"), 80.0)
+                    after = (node.nmt._state, node.nmt.timestamp if kind == "remote" else None, len(node.emcy.log) if kind == "remote" else 0)
+                    answered = any(f.src == "net" and f.can_id == 0x580 + nid for f in list(bus.log)[mark:])
+                    return before != after or answered
+                heard = probe()
+                ctx.count("node_effect_checks")
+                if gone and heard:
+                    ctx.violation(f"removed-node-still-receives:{kind}:after-wholesale-unsubscribe",
+                                  f"{how} of {kind} node {nid} (after unsubscribe({cid:#x})) {'raised ' + repr(raised) if raised else 'returned'}; the node is no "
+                                  "longer on the network but its handlers still react to frames", case)
+                # (a refused removal that leaves the still-registered node partly detached is the library's business: the
+                # property only speaks about nodes that *are* removed or replaced)
+                bus.close()
+
+
 def run(ctx, desc):
     rigs.LogCapture()
     rng = random.Random(repr(("c10", desc["cs"])))
@@ -452,6 +527,7 @@ def run(ctx, desc):
         history(ctx, rng, desc["length"], f"{desc['cs']}-{h}")
     for k in range(2 if desc["histories"] < 100 else 10):
         reconnect_scenario(ctx, rng, f"{desc['cs']}-{k}")
+    damaged_node_scenarios(ctx, rng, f"{desc['cs']}")
     frame_format_sweep(ctx, rng, desc["part"], desc["parts"])
     scanner_sweep(ctx, rng, desc["part"], desc["parts"])
 
